@@ -327,6 +327,27 @@ func c08Check(carrier string, body, blk []byte, items []c08Item, expectReject bo
 		if w := c08Additions(t.Additions, items); w != "" {
 			return w
 		}
+		// a receiver with a vendor hook installed (CustomAdditionContentFunc): a hook that declines every item, and one that
+		// takes the vendor IDs (>= 0xE0) and returns them as they came, must leave the decoded report exactly as without a hook
+		for hk := 0; hk < 2; hk++ {
+			var h model.T0x0200
+			takeVendor := hk == 1
+			h.CustomAdditionContentFunc = func(id uint8, content []byte) (model.AdditionContent, bool) {
+				if takeVendor && id >= 0xE0 {
+					return model.AdditionContent{Data: content, CustomValue: id}, true
+				}
+				return model.AdditionContent{}, false
+			}
+			if err := h.Parse(c08Msg(body)); err != nil {
+				return "reject|well-formed location body rejected|0200 (receiver with a vendor hook)"
+			}
+			if w := c08Base(&h.T0x0200LocationItem, blk); w != "" {
+				return w + " (receiver with a vendor hook)"
+			}
+			if w := c08Additions(h.Additions, items); w != "" {
+				return w + " (receiver with a vendor hook)"
+			}
+		}
 		// a receiver that was filled in by hand before (the words of THIS body, or other ones, without their flag details — the
 		// way handler prototypes are written) must come out of Parse exactly like a fresh one
 		if st := c08PresetStride.Load(); st > 1 && (ref.BE32(blk[0:])^ref.BE32(blk[4:]))%uint32(st) != 0 {
